@@ -4,7 +4,7 @@
    The generator configuration is the one of cmd/addchain/gen.go (x, z, t%d). *)
 From Coq Require Import String.
 From Coq Require Import List NArith ZArith Bool.
-From AV Require Import model.Proto model.Alloc model.Interp model.Gen.
+From AV Require Import model.Proto model.Peg model.AstProto model.Alloc model.Interp model.Gen.
 Import ListNotations.
 Open Scope N_scope.
 
@@ -21,19 +21,27 @@ Definition print_optZ (o : option Z) : list N :=
 Definition print_regs (d : list (list N * Z)) : list N :=
   print_list (fun e => print_bytes (fst e) ++ [colon] ++ print_hexZ (snd e)) d.
 
+(* Check convention (not part of the model): a script with a shift above 4096 is not evaluated -- the
+   implementation appends one chain element per doubling -- and both sides answer `err toolarge`. *)
+Definition too_large (src : list N) : bool :=
+  match parse src with Ok s => script_huge s | _ => false end.
+(* the model call is a thunk: extraction is strict *)
+Definition bounded {A} (src : list N) (o : unit -> outcome A) : outcome A :=
+  if too_large src then Err ($"toolarge") else o tt.
+
 Definition run (line : list N) : list N :=
   match split sp line with
   | [f; a; b] =>
       if str_eqb f $"gen" then
         match parse_bytes b with
-        | Some src => print_outcome print_bytes (gen default_cfg a src)
+        | Some src => print_outcome print_bytes (bounded src (fun _ => gen default_cfg a src))
         | None => r_badcase
         end
       else if str_eqb f $"runlisting" then
         match parse_bytes a, parse_mode b with
         | Some src, Some mode =>
             print_outcome (fun r => print_optZ (fst (fst r)) ++ [sp] ++ print_bool (snd (fst r)) ++ [sp] ++ print_regs (snd r))
-                          (run_listing mode default_cfg src)
+                          (bounded src (fun _ => run_listing mode default_cfg src))
         | _, _ => r_badcase
         end
       else r_badcase
